@@ -128,7 +128,7 @@ func (u *URL) String() string {
 	// Path
 	path := "/"
 	for _, p := range u.Fragments {
-		path += p + "/"
+		path += url.PathEscape(p) + "/"
 	}
 
 	path = path[:len(path)-1]
@@ -166,10 +166,10 @@ func (u *URL) String() string {
 			panic(err)
 		}
 
-		param := "filter=" + string(mf)
+		param := "filter=" + url.QueryEscape(string(mf))
 		urlParams = append(urlParams, param)
 	} else if u.Params.FilterLabel != "" {
-		urlParams = append(urlParams, "filter="+u.Params.FilterLabel)
+		urlParams = append(urlParams, "filter="+url.QueryEscape(u.Params.FilterLabel))
 	}
 
 	// Pagination
@@ -177,14 +177,14 @@ func (u *URL) String() string {
 		if num, ok := u.Params.Page["number"]; ok {
 			urlParams = append(
 				urlParams,
-				"page%5Bnumber%5D="+fmt.Sprint(num),
+				"page%5Bnumber%5D="+url.QueryEscape(fmt.Sprint(num)),
 			)
 		}
 
 		if size, ok := u.Params.Page["size"]; ok {
 			urlParams = append(
 				urlParams,
-				"page%5Bsize%5D="+fmt.Sprint(size),
+				"page%5Bsize%5D="+url.QueryEscape(fmt.Sprint(size)),
 			)
 		}
 	}
